@@ -12,3 +12,4 @@ import JivaVerif.Properties.C16
 import JivaVerif.Properties.Controller
 import JivaVerif.Properties.C12
 import JivaVerif.Properties.C17
+import JivaVerif.Tie
